@@ -259,4 +259,7 @@ MUTANTS = [{'name': 'seeded-C04-a', 'patch': 'C04-a/patch.diff', 'expect': ('R4.
 
 
 # behaviour-preserving edits (thorough tier): the rules must stay silent on every one of them
-NEUTRAL = [{'name': 'first inscription height test written the other way round', 'file': 'src/index/updater.rs', 'old': 'let index_inscriptions = self.height >= self.index.settings.first_inscription_height()\n      && self.index.index_inscriptions;', 'new': 'let first = self.index.settings.first_inscription_height();\n    let index_inscriptions = self.index.index_inscriptions && first <= self.height;'}]
+NEUTRAL = [
+  {'name': 'commit: two independent statistic flushes reordered', 'file': 'src/index/updater.rs', 'old': '    Index::increment_statistic(&wtx, Statistic::OutputsTraversed, self.outputs_traversed)?;\n    self.outputs_traversed = 0;\n    Index::increment_statistic(&wtx, Statistic::SatRanges, self.sat_ranges_since_flush)?;\n    self.sat_ranges_since_flush = 0;\n', 'new': '    Index::increment_statistic(&wtx, Statistic::SatRanges, self.sat_ranges_since_flush)?;\n    self.sat_ranges_since_flush = 0;\n    Index::increment_statistic(&wtx, Statistic::OutputsTraversed, self.outputs_traversed)?;\n    self.outputs_traversed = 0;\n'},
+  {'name': 'commit: satpoint literal inlined', 'file': 'src/index/updater.rs', 'old': '            let satpoint = SatPoint { outpoint, offset };\n            sequence_number_to_satpoint.insert(sequence_number, &satpoint.store())?;', 'new': '            sequence_number_to_satpoint.insert(sequence_number, &SatPoint { outpoint, offset }.store())?;'},
+{'name': 'first inscription height test written the other way round', 'file': 'src/index/updater.rs', 'old': 'let index_inscriptions = self.height >= self.index.settings.first_inscription_height()\n      && self.index.index_inscriptions;', 'new': 'let first = self.index.settings.first_inscription_height();\n    let index_inscriptions = self.index.index_inscriptions && first <= self.height;'}]
